@@ -36,6 +36,12 @@ WIDE_OK = {
     'c10': ['from_str'],
     'c11': ['to_str_radix_10'],
 }
+# forms returning (value, overflow flag), compared in both directions; and checked forms for which the converse direction is compared too
+FLAG_OPS = {'c01': ['overflowing_add', 'overflowing_sub', 'carrying_add', 'borrowing_sub', 'overflowing_neg', 'overflowing_abs'],
+            'c02': ['overflowing_mul'], 'c08': ['overflowing_pow']}
+CONVERSE_OK = {'c01': ['checked_add', 'checked_sub', 'checked_neg', 'checked_abs'], 'c02': ['checked_mul'],
+               # not the remainders: MIN % -1 is None in the narrow type (the division overflows) although the wide type's result 0 is representable
+               'c03': ['checked_div', 'checked_div_euclid'], 'c08': ['checked_pow']}
 PAIRS = [('u8x1', 'u16x3'), ('u16x1', 'u8x5'), ('u8x3', 'u64x2'), ('u32x2', 'u64x3'), ('u64x1', 'u8x17'), ('u64x2', 'u32x6'),
          ('u16x5', 'u64x2'), ('u64x4', 'u64x5')]
 PAIRS = PAIRS + [(a.replace('u', 'i', 1), b.replace('u', 'i', 1)) for a, b in PAIRS]
@@ -219,6 +225,38 @@ def custom_task(task, st, runmod):
                     runmod.add_violation(st, P_as(PROP), wide, mode, res[1][0][k], src + ':' + key + ' (narrow vs wide)', '%s gives %s' % (wide.name, wb[key][0]),
                                          '%s gives %r' % (nar.name, no), 'extension into a wider type does not commute with the operation',
                                          extra={'kind': 'wide', 'src': src, 'name': key, 'requests': [res[0][0][k], res[1][0][k]]})
+            # (value, flag) forms and the converse direction: when the wide type reports a result without overflow (or Some) that is representable in
+            # the narrow type, the narrow type must report exactly that; when the narrow type reports no overflow, so must the wide type
+            for name in FLAG_OPS.get(src, []) + CONVERSE_OK.get(src, []):
+                if name not in nb or name not in wb:
+                    continue
+                no, (wraw, wo) = nb[name], wb[name]
+                if no is None and name in FLAG_OPS.get(src, []):
+                    continue
+                flagged = name in FLAG_OPS.get(src, [])
+                if flagged:
+                    n_ok = isinstance(no, tuple) and len(no) == 2 and isinstance(no[0], X) and no[1] is False
+                    w_ok = isinstance(wo, tuple) and len(wo) == 2 and isinstance(wo[0], X) and wo[1] is False
+                    nv = nar.val(no[0].p) if isinstance(no, tuple) and len(no) == 2 and isinstance(no[0], X) else None
+                    wv = wide.val(wo[0].p) if w_ok else None
+                else:
+                    n_ok = isinstance(no, tuple) and len(no) == 2 and no[0] == 'S' and isinstance(no[1], X)
+                    w_ok = isinstance(wo, tuple) and len(wo) == 2 and wo[0] == 'S' and isinstance(wo[1], X)
+                    nv = nar.val(no[1].p) if n_ok else None
+                    wv = wide.val(wo[1].p) if w_ok else None
+                bad = None
+                if flagged and n_ok and not (w_ok and wv == nv):
+                    bad = ('%s gives %s' % (wide.name, wraw), '%s gives %r (no overflow)' % (nar.name, no))
+                elif w_ok and nar.fits(wv) and not (n_ok and nv == wv):
+                    bad = ('%s gives %r' % (nar.name, no), '%s gives %s, which the narrow type can represent' % (wide.name, wraw))
+                if flagged or w_ok:
+                    st['events'] += 1
+                    st['ops'][src + ':' + name + ' (narrow vs wide, both directions)'] += 1
+                    hit = hit or n_ok or (w_ok and nar.fits(wv))
+                if bad:
+                    runmod.add_violation(st, P_as(PROP), nar, mode, res[0][0][k], src + ':' + name + ' (narrow vs wide, both directions)', bad[0], bad[1],
+                                         'extension into a wider type does not commute with the operation',
+                                         extra={'kind': 'wide', 'src': src, 'name': name, 'requests': [res[0][0][k], res[1][0][k]]})
             cname = 'narrow->wide via %s' % src
             st['classes'][cname if hit else 'plain:' + cname + ' (narrow result not representable, nothing to compare)'] += 1
             if hit:
